@@ -3,7 +3,7 @@
 From Coq Require Import ZArith List Bool.
 From Model Require Import Base Arith.
 From Model Require Import Block Examples.
-From Lemmas Require Import ArithLemmas HoldingLemmas.
+From Lemmas Require Import ArithLemmas HoldingLemmas NoWinners NoWinnersStatus.
 Open Scope Z_scope.
 
 (* The amount credited is floor(input x source rate / destination rate); once averaging is
@@ -46,6 +46,18 @@ Theorem C07_conversion_waits_in_holding : forall c h s order e txs s',
   exists s1, insert_history s e order h txs = Ok s1.
 Proof. exact conversion_waits_in_holding. Qed.
 Print Assumptions C07_conversion_waits_in_holding.
+
+(* ... and it is not executed by any later block that has no graded rates either: in a block without winners the
+   status of every earlier batch is untouched (the batch-status table only grows), for every block content and every
+   committed state.  With C06's window theorems (a rated block looks at exactly the heights since the previous rated
+   one) this is "the first later block that has graded rates". *)
+Theorem C07_pending_conversion_waits_through_unrated_blocks : forall c cm mem b s' mem' r,
+  step_block c cm mem b = Done (s', mem') ->
+  (forall g, grade_opr c cm b = Done g -> no_winners g) ->
+  (c_V20HeightActivation c <= b_height b -> forall g, grade_spr c cm b = Done g -> no_winners g) ->
+  In r (hist cm) -> In r (hist s').
+Proof. exact no_winners_pending_stays_pending. Qed.
+Print Assumptions C07_pending_conversion_waits_through_unrated_blocks.
 
 (* in the example chain the conversion entered at 102 is pending through the unrated block 103 and
    executes at 104 with 104's rates: 20 pFCT at 4 USD -> 80 pUSD *)
